@@ -21,6 +21,7 @@ RULE = ("Hypothesis rule-based state machine over Node.store (cleared at the sta
         "operation; after every step Node.store has exactly the model's keys bound to the same objects and all ids are "
         "distinct.  Non-trivial: a history with a discarding operation (delete, replace with deletion, prune that removes, "
         "expand) performed while unrelated entries exist; distinct operation-kind sequences by hash.")
+RULE += ('  prune is called on any registered tree (also one whose root is an unknown element) and on inner nodes.')
 ASSUMPTIONS = [
     "ids are never deliberately reused (imported JSON gets fresh ids)",
     "recursive deletion, replace-with-deletion, prune and expand are applied only to subtrees whose nodes are all "
